@@ -223,6 +223,18 @@ var c03Hostile = func() []dDur {
 var c03CIDRs = []string{"64:ff9b::/96", "64:ff9b::/64", "64:ff9b::/56", "64:ff9b::/48", "64:ff9b::/40", "64:ff9b::/32", "64:ff9b::/33", "64:ff9b::/128",
 	"64:ff9b::/0", "10.0.0.0/8", "10.0.0.0/32", "192.0.2.0/24", "::ffff:10.0.0.0/96", "::ffff:10.0.0.0/104", "64:ff9b::1/96", "2001:db8:64:64:1:2:3:4/64", "::/96", "ff00::/32"}
 
+// every prefix length of two IPv6 networks and of an IPv4 network: "arbitrary CIDR strings for pref64"
+func init() {
+	for bits := 0; bits <= 128; bits++ {
+		for _, a := range []string{"64:ff9b:1234:5678:9abc:def0:1234:5678", "2001:db8:ffff:ffff:ffff:ffff:ffff:ffff"} {
+			c03CIDRs = append(c03CIDRs, netip.PrefixFrom(netip.MustParseAddr(a), bits).Masked().String())
+		}
+		if bits <= 32 {
+			c03CIDRs = append(c03CIDRs, netip.PrefixFrom(netip.MustParseAddr("10.255.255.255"), bits).Masked().String())
+		}
+	}
+}
+
 func c03Gen(t *rapid.T) c03Case {
 	g := &vg{t: t}
 	d := g.genDoc(true, 0)
